@@ -311,18 +311,41 @@ pub fn u_kind_pairs(k: usize, m: usize, with_empty: bool) -> Universe {
 /// Character-class range formatting ([c-d]) sees every possible pair of end points.
 pub fn u_runs() -> Universe {
     let mut starts: Vec<u32> = (0u32..0x80).collect();
-    for b in [0xa0u32, 0x2fe, 0x660, 0x2026, 0xd7fa, 0xe000, 0xfffa, 0x1_0000, 0x1f3f9, 0x10_fffa] {
+    for b in [0xa0u32, 0x2fe, 0x660, 0x2026, 0xd7fa, 0xd7fc, 0xd7fd, 0xd7fe, 0xd7ff, 0xe000, 0xfffa, 0xfffd, 0xffff, 0x1_0000, 0x1f3f9, 0x10_fffa] {
         starts.push(b);
     }
     let mut words_all: Vec<String> = vec![];
     let mut index: std::collections::HashMap<String, usize> = std::collections::HashMap::new();
     let mut sets = vec![];
+    // successor in scalar order: U+D7FF is followed by U+E000 (a run may cross the surrogate gap)
+    let succ = |c: u32| if c == 0xd7ff { 0xe000 } else { c + 1 };
+    let mut runs: Vec<Vec<char>> = vec![];
     for s in starts {
         for n in 2..=5u32 {
-            let cs: Vec<char> = (s..s + n).filter_map(char::from_u32).collect();
+            let mut cs: Vec<char> = vec![];
+            let mut c = s;
+            for _ in 0..n {
+                if let Some(ch) = char::from_u32(c) {
+                    cs.push(ch);
+                }
+                c = succ(c);
+            }
             if cs.len() != n as usize {
                 continue;
             }
+            // the run with one interior member removed: its neighbours are then NOT consecutive
+            if n >= 3 && (s < 0x80 && s % 8 == 0 || s >= 0x80) {
+                for k in 1..cs.len() - 1 {
+                    let mut h = cs.clone();
+                    h.remove(k);
+                    runs.push(h);
+                }
+            }
+            runs.push(cs);
+        }
+    }
+    for cs in runs {
+        {
             for shape in 0..3 {
                 let set: Vec<usize> = cs
                     .iter()
@@ -342,7 +365,7 @@ pub fn u_runs() -> Universe {
             }
         }
     }
-    Universe { name: "U_runs: c..c+n-1 (n=2..5) for every ASCII start and 10 table boundaries; bare, after q, before q".to_string(), words: words_all, sets }
+    Universe { name: "U_runs: c..c+n-1 (n=2..5) for every ASCII start and 16 table boundaries (across the surrogate gap and the BMP/astral border too), and the same run with one interior member removed; bare, after q, before q".to_string(), words: words_all, sets }
 }
 
 /// Long single test cases with MANY repeated substrings (parametric families, every n up to the bound): the
@@ -571,4 +594,76 @@ pub fn u_long_literal_at() -> Universe {
         }
     }
     Universe::from_words("U_longlit: a^pos + k + b, pos = 1..=130 and 236..=244, k in {backslash, space, #, e-acute, (, U+1F4A9}", w, 1)
+}
+
+
+/// A long NON-periodic unit (10, 63..66, 80 distinct characters) repeated m = 2, 3 times, bare and with the first 1 or
+/// 5 characters of a further copy after it or the last 1 or 5 before it. Searches that treat long units differently
+/// from short ones, and stretches that are not whole multiples of the unit, meet every threshold.
+pub fn u_long_units() -> Universe {
+    let alpha: Vec<char> = ('a'..='z').chain('A'..='Z').chain('0'..='9').chain("!#%&,:;<=>@_~".chars()).chain('\u{3b1}'..='\u{3c9}').collect();
+    let mut w = vec![];
+    for ulen in [10usize, 63, 64, 65, 66, 80] {
+        let unit: String = alpha[..ulen].iter().collect();
+        let uc: Vec<char> = unit.chars().collect();
+        for m in [2usize, 3] {
+            let body = unit.repeat(m);
+            w.push(body.clone());
+            for part in [1usize, 5] {
+                w.push(format!("{body}{}", uc[..part].iter().collect::<String>()));
+                w.push(format!("{}{body}", uc[ulen - part..].iter().collect::<String>()));
+            }
+        }
+    }
+    Universe::from_words("U_longunits: a non-periodic unit of 10, 63..66, 80 characters x 2, 3 copies, bare / followed by the start of a further copy / preceded by the end of one", w, 1)
+}
+
+/// Two code points in one test case that agree in their low 8 or 16 bits (c and c + k * 0x100 / 0x10000), both orders:
+/// anything keyed on a truncated code point confuses them.
+pub fn u_alias_pairs() -> Universe {
+    let mut w = vec![];
+    for c in [0x30u32, 0x61, 0x20, 0x5f, 0x2d, 0xe9, 0x663, 0x2003] {
+        for d in [0x100u32, 0x1000, 0x10000, 0x20000, 0xe0000, 0x100000] {
+            if let (Some(a), Some(b)) = (char::from_u32(c), char::from_u32(c + d)) {
+                w.push(format!("{a}{b}"));
+                w.push(format!("{b}{a}"));
+                w.push(format!("{a}-{b}"));
+            }
+        }
+    }
+    Universe::from_words("U_alias: c next to c + d, d in {0x100, 0x1000, 0x10000, 0x20000, 0xE0000, 0x100000}, c in {0, a, space, _, -, e-acute, U+0663, U+2003}", w, 1)
+}
+
+/// X X Z Z with X and Z made of distinct characters: n(n+1)/2 repeated substrings for |X| = n -- thousands of
+/// candidates in one test case, all of them in one hash map.
+pub fn u_double_blocks() -> Universe {
+    let alpha: Vec<char> = ('a'..='z').chain('A'..='Z').chain('0'..='9').chain('\u{3b1}'..='\u{3c9}').chain('\u{430}'..='\u{44f}').collect();
+    let mut w = vec![];
+    for n in [4usize, 16, 48, 64, 80] {
+        for m in [3usize, 20] {
+            let x: String = alpha[..n].iter().collect();
+            let z: String = alpha[n..n + m].iter().collect();
+            w.push(format!("{x}{x}{z}{z}"));
+        }
+    }
+    Universe::from_words("U_dblocks: X X Z Z, |X| in {4,16,48,64,80}, |Z| in {3,20}, all characters distinct", w, 1)
+}
+
+/// One LONG common prefix (10 .. 1,500 characters) followed by short different tails: automata with more than a
+/// thousand states whose interesting part is a handful of states at the end.
+pub fn u_long_prefix() -> Universe {
+    let mut words_all: Vec<String> = vec![];
+    let mut sets = vec![];
+    for n in [10usize, 100, 300, 1000, 1100, 1500] {
+        let p: String = "abcdefghij".chars().cycle().take(n).collect();
+        for tails in [vec!["a", "b", "aa"], vec!["", "a"], vec!["a", "bc", "b"], vec!["xy", "x", "y", "xyx"]] {
+            let mut set = vec![];
+            for t in tails {
+                words_all.push(format!("{p}{t}"));
+                set.push(words_all.len() - 1);
+            }
+            sets.push(set);
+        }
+    }
+    Universe { name: "U_longprefix: a common prefix of 10, 100, 300, 1000, 1100, 1500 characters followed by the tails {a,b,aa}, {eps,a}, {a,bc,b}, {xy,x,y,xyx}".to_string(), words: words_all, sets }
 }
